@@ -97,6 +97,22 @@ def find_function(tree, qualname):
     node = tree
     for p in parts:
         found = None
+        if p.startswith('<lambda'):
+            # n-th lambda (source order) inside the enclosing function, wrapped as `def: return <body>`
+            k = int(p[8:-1]) if '#' in p else 0
+            lams = sorted([n for n in ast.walk(node) if isinstance(n, ast.Lambda)],
+                          key=lambda n: (n.lineno, n.col_offset))
+            if k >= len(lams):
+                return None
+            lam = lams[k]
+            fd = ast.FunctionDef(name='<lambda>', args=lam.args, body=[ast.Return(value=lam.body)],
+                                 decorator_list=[], returns=None, type_comment=None, type_params=[])
+            ast.copy_location(fd, lam)
+            ast.copy_location(fd.body[0], lam)
+            fd.end_lineno = lam.end_lineno
+            fd.end_col_offset = lam.end_col_offset
+            node = fd
+            continue
         for ch in ast.walk(node) if node is not tree else node.body:
             if ch is node:
                 continue
@@ -241,6 +257,17 @@ def verify_function(contract, reg, repo=REPO):
         res.status = 'undecided'
         res.reason = 'function %s not found in %s' % (contract.qualname, contract.file)
         return res
+    if contract.region is not None:
+        # block contract: the obligations are about this region of the function body only
+        body = contract.region(func)
+        if not body:
+            res.status = 'undecided'
+            res.reason = 'region of %s not found (function shape changed)' % contract.qualname
+            return res
+        func = ast.FunctionDef(name=func.name, args=func.args, body=list(body), decorator_list=[],
+                               returns=None, type_comment=None, type_params=[], lineno=body[0].lineno,
+                               col_offset=func.col_offset, end_lineno=body[-1].end_lineno,
+                               end_col_offset=body[-1].end_col_offset)
     seg = ast.get_source_segment(src, func) or ''
     res.sha256 = hashlib.sha256(seg.encode()).hexdigest()
     res.span = (func.lineno, func.end_lineno)
@@ -341,7 +368,10 @@ def exit_obligations(V, outs, entry, is_gen):
                 if val is None:
                     val = SV(SeqT(c.yields), z3.Empty(sort_of(SeqT(c.yields))))
             elif c.ret is not None and val is not None:
-                val = as_sv(val, c.ret) if c.ret != NONE else MNONE
+                try:
+                    val = as_sv(val, c.ret) if c.ret != NONE else MNONE
+                except Unsupported:
+                    pass    # a result of another shape: the postconditions are evaluated on it as it is
             env = dict(entry.env)
             env['result'] = val
             env['EFFECTS'] = st.ghost.get('effects') or SV(SeqT(STR), z3.Empty(sort_of(SeqT(STR))))
